@@ -75,6 +75,35 @@ pub fn check_fs(case: &FsCase) -> CaseResult {
     Ok(())
 }
 
+/// Like `check_fs` with persistent write/append handles (slots) that may outlive the file they were opened on
+pub fn check_fs_handles(ops: &[Op]) -> CaseResult {
+    let m = Memfs::new();
+    populate(&m);
+    let mut h = Handles::default();
+    mark("fs-handles", "[");
+    for op in ops {
+        mark_append(&format!("{},", serde_json::to_string(op).unwrap()));
+        let out = apply_h(&m, op, &mut h);
+        if let Out::Panic(msg) = &out {
+            return Err(Failure::new(format!("{}|panic|{}", op.name(), panic_site(msg)), format!("{:?} panicked: {} (program {:?})", op, msg, ops)));
+        }
+        if let Err(w) = probe(&m) {
+            let cls = w.split(':').take(2).collect::<Vec<_>>().join(":");
+            return Err(Failure::new(format!("{}|unusable-afterwards|{}", op.name(), cls), format!("after {:?} -> {:?} in program {:?}: {}", op, out, ops, w)));
+        }
+    }
+    // dropping the handles that are still open is a call too
+    match catch(std::panic::AssertUnwindSafe(|| drop(h))) {
+        Ok(()) => {},
+        Err(msg) => return Err(Failure::new(format!("handle-drop|panic|{}", panic_site(&msg)), format!("dropping the open handles panicked: {} (program {:?})", msg, ops))),
+    }
+    if let Err(w) = probe(&m) {
+        let cls = w.split(':').take(2).collect::<Vec<_>>().join(":");
+        return Err(Failure::new(format!("handle-drop|unusable-afterwards|{}", cls), format!("after dropping the open handles of program {:?}: {}", ops, w)));
+    }
+    Ok(())
+}
+
 /// Pure helpers: only totality is asserted here (values belong to C14/C15/C17/C19)
 pub fn check_helpers(s: &str, t: &str) -> CaseResult {
     macro_rules! total {
@@ -220,7 +249,7 @@ fn offsets() -> impl Strategy<Value = i64> {
 }
 
 pub fn run(c: &Ctx) {
-    c.set_rule("(a) every single-path call form of the Memfs alphabet (52 forms: all trait methods, builder variants, handles) on every string over a 19-symbol adversarial alphabet ('/', '.', '~', '$', ':', '{', '}', space, a, 2/3/4-byte chars, newline, NUL, '-', '%', '*', backslash, quote) up to length 2 (quick) / 3 (thorough), from a fresh and from a populated instance (links, loop link, dangling link, non-UTF-8 bytes, cwd below root); two-path forms on all pairs of strings up to length 1 plus specials; seeded random arguments (<=64 symbols, 4 KiB names, 2000-deep '..' chains, any u32 mode / id). After EVERY call: no panic, call returned (CPU watchdog), C03 invariants on the dump, and a probe sequence on the same instance (mkdir_p, write_all, read_all, remove_all, exists) succeeds. (b) every public path helper, StringExt/ToStringExt/IteratorExt/PeekableExt/OptionExt function and user:: getter on the same strings (totality only). (c) read handles driven by seek/read scripts with extreme offsets. Non-trivial = argument with a multi-byte character or >=2 special symbols; distinct by (function, argument).");
+    c.set_rule("(a) every single-path call form of the Memfs alphabet (52 forms: all trait methods, builder variants, handles) on every string over a 19-symbol adversarial alphabet ('/', '.', '~', '$', ':', '{', '}', space, a, 2/3/4-byte chars, newline, NUL, '-', '%', '*', backslash, quote) up to length 2 (quick) / 3 (thorough), from a fresh and from a populated instance (links, loop link, dangling link, non-UTF-8 bytes, cwd below root); two-path forms on all pairs of strings up to length 1 plus specials; seeded random arguments (<=64 symbols, 4 KiB names, 2000-deep '..' chains, any u32 mode / id). After EVERY call: no panic, call returned (CPU watchdog), C03 invariants on the dump, and a probe sequence on the same instance (mkdir_p, write_all, read_all, remove_all, exists) succeeds. (b) every public path helper, StringExt/ToStringExt/IteratorExt/PeekableExt/OptionExt function and user:: getter on the same strings (totality only). (c) read handles driven by seek/read scripts with extreme offsets. (d) every program of length 4 (quick) / 5 (thorough) over 15 forms {open write/append handle, write, flush, drop, remove / remove_all / move_p / replace-by-directory / replace-by-link of the handle's file, set_cwd} on the populated instance: handles that outlive their file must neither panic nor hang nor wedge the instance (probe after every step and after the final drops). Non-trivial = argument with a multi-byte character or >=2 special symbols; distinct by (function, argument).");
     c.assume("non-UTF-8 OsStr paths are outside the stated domain");
     let max_len = c.tier.pick(2, 3);
     let strings = all_strings(ALPHA, max_len);
@@ -317,6 +346,57 @@ pub fn run(c: &Ctx) {
             check_fs(&FsCase { populated: *populated, ops })
         },
     );
+    // (d) write/append handles outliving their file: every program over the alphabet below
+    {
+        let st = |x: &str| x.to_string();
+        let alpha: Vec<Op> = vec![
+            Op::HOpen(0, false, st("/a/f")),
+            Op::HOpen(0, true, st("/a/f")),
+            Op::HOpen(1, true, st("new")),
+            Op::HWrite(0, b"x".to_vec()),
+            Op::HWrite(1, b"y".to_vec()),
+            Op::HFlush(0),
+            Op::HFlush(1),
+            Op::HDrop(0),
+            Op::Remove(st("/a/f")),
+            Op::RemoveAll(st("/a")),
+            Op::MoveP(st("/a/f"), st("/g")),
+            Op::MkdirP(st("/a/f")),
+            Op::Symlink(st("/a/f"), st("/a/b")),
+            Op::Remove(st("/a/new")),
+            Op::SetCwd(st("/")),
+        ];
+        let len = c.tier.pick(4u32, 5);
+        let k = alpha.len() as u64;
+        par_for(k.pow(len), 256, |i| {
+            let mut prog = vec![];
+            let mut x = i;
+            for _ in 0..len {
+                prog.push(alpha[(x % k) as usize].clone());
+                x /= k;
+            }
+            c.eval(1);
+            // non-trivial: a handle is used (write / flush / implicit drop) after a call removed or replaced its file
+            let mut open = [false; 2];
+            let mut stale = false;
+            for o in &prog {
+                match o {
+                    Op::HOpen(s, ..) => open[*s as usize] = true,
+                    Op::HDrop(s) => open[*s as usize] = false,
+                    Op::Remove(_) | Op::RemoveAll(_) | Op::MoveP(..) if open[0] || open[1] => stale = true,
+                    _ => {},
+                }
+            }
+            if stale {
+                c.nontrivial(fp(&("fs-handles", i)));
+                c.class("handles:outlive-their-file");
+            }
+            if i % 4099 == 0 {
+                c.sample(|| json!({"kind":"fs-handles","ops":prog}));
+            }
+            c.judge("fs-handles", &prog, check_fs_handles(&prog));
+        });
+    }
     run_proptest("helpers", 1202, || (string_over(ADVERSARIAL, 40), string_over(ADVERSARIAL, 12)), cases, |(s, t): &(String, String)| {
         mark("helpers", s);
         c.eval(1);
@@ -343,6 +423,10 @@ pub fn run(c: &Ctx) {
 pub fn replay(kind: &str, case: &Value) -> Option<CaseResult> {
     match kind {
         "fs" => Some(check_fs(&serde_json::from_value(case.clone()).ok()?)),
+        "fs-handles" => {
+            let ops: Vec<Op> = serde_json::from_value(case.clone()).ok()?;
+            Some(check_fs_handles(&ops))
+        },
         "helpers" => {
             let a = case.as_array()?;
             Some(check_helpers(a[0].as_str()?, a[1].as_str()?))
